@@ -1311,8 +1311,36 @@ impl GraphDatabase {
             valid_edges.push((edge, name));
         }
 
-        let msg = AuthorisationMessage::AddEdges(room_id, valid_edges, invalid_edges, reply);
-        let _ = self.auth_service.send(msg).await;
+        //an edge belongs to the room of its source node: only the edges of nodes of the synchronised room are accepted
+        let auth_service = self.auth_service.clone();
+        let _ = self
+            .graph_database
+            .reader
+            .send_async(Box::new(move |conn| {
+                let mut in_room_edges = Vec::with_capacity(valid_edges.len());
+                let stmt = conn.prepare_cached("SELECT 1 FROM _node WHERE id = ? AND room_id = ?");
+                match stmt {
+                    Ok(mut stmt) => {
+                        for (edge, name) in valid_edges {
+                            match stmt.exists((&edge.src, &room_id)) {
+                                Ok(true) => in_room_edges.push((edge, name)),
+                                _ => invalid_edges.push(edge.src),
+                            }
+                        }
+                        let msg = AuthorisationMessage::AddEdges(
+                            room_id,
+                            in_room_edges,
+                            invalid_edges,
+                            reply,
+                        );
+                        let _ = auth_service.send_blocking(msg);
+                    }
+                    Err(e) => {
+                        let _ = reply.send(Err(Error::from(e)));
+                    }
+                }
+            }))
+            .await;
     }
 
     pub async fn delete_edges(&self, mut edges: Vec<EdgeDeletionEntry>, reply: Sender<Result<()>>) {
